@@ -75,6 +75,8 @@ func CheckUciHistory(sc *Scenario, out *UciRunOut, res *RunResult) {
 	c05 := hasGroup(groups, "c05")
 	c13 := hasGroup(groups, "c13")
 	c16 := hasGroup(groups, "c16")
+	c14 := hasGroup(groups, "c14")
+	prevBest := ""
 
 	// map in-line ordinal -> step
 	stepOfIn := map[int]int{}
@@ -129,6 +131,10 @@ func CheckUciHistory(sc *Scenario, out *UciRunOut, res *RunResult) {
 				res.count("movetime_samples", 1)
 			}
 		}
+		if c14 && g.root != nil && len(g.root.LegalMoves()) > 0 && bm != "NoMove" && bm != "" && !g.root.IsLegal(bm) && bm == prevBest {
+			res.addViolation("C14", "answered_by_earlier_result", fmt.Sprintf("%q on %s answered with %s, the answer of the previous search, which is not a legal move here", g.line, g.root.Fen(), bm))
+		}
+		prevBest = bm
 		if g.root == nil {
 			return
 		}
